@@ -505,17 +505,19 @@ def replay_kt(case: Dict[str, Any]) -> Tuple[bool, str]:
 
 
 # ---------------------------------------------------------------------------------------------
-# the C10-a negation witness of TDV.MP.error_position_statement_false, replayed on the real code
+# the former C10-a witness (regression `example` after `TDV.MP.error_position` in Props/MP.lean), replayed on the real code
 
 C10A_CFG = {"kind": "map", "n": 6, "bs": 1, "drop_last": False, "W": 2, "pf": 2, "persistent": False, "interval": 2,
             "sampler": "seq", "fail": [2]}
-C10A_EXPECT = ["item", "item", "error", "item", "assertion", "item", "stop"]
+C10A_EXPECT = ["item", "item", "error", "item", "item", "item", "stop"]
+C10A_EXPECT_BEFORE_FIX = ["item", "item", "error", "item", "assertion", "item", "stop"]
 
 
 def replay_c10a(seeds=(0, 1, 2)) -> Tuple[bool, str]:
-    """Runs the witness configuration (snapshot_every_n_steps=2, two workers, the third batch fails) on the real
-    loader under several schedules, and the model on the trace; returns (witness still fails on the real code,
-    description).  The Lean witness observes item,item,error,item,AssertionError,item,stop."""
+    """Runs the former C10-a witness configuration (snapshot_every_n_steps=2, two workers, the third batch fails) on
+    the real loader under several schedules, and the model on the trace; returns (the real code shows the complete
+    observation sequence of the Lean regression example AND the model accepts every trace, description).  Before repo
+    fix f1014eb the observations were item,item,error,item,AssertionError,item,stop (batch 14 lost)."""
     seen = []
     for sd in seeds:
         case = {"cfg": C10A_CFG, "seed": sd, "policy": "random", "script": [["next"]] * 8}
@@ -523,6 +525,7 @@ def replay_c10a(seeds=(0, 1, 2)) -> Tuple[bool, str]:
         kinds = [e[1] for e in trace if e[0] == "ret"]
         ans = Driver().run([{"m": "mp", "cfg": model_cfg(C10A_CFG), "trace": trace}])[0]
         seen.append((kinds, bool(isinstance(ans, dict) and ans.get("ok"))))
-    fails = all(k == C10A_EXPECT for k, _ in seen)
+    complete = all(k == C10A_EXPECT for k, _ in seen)
     agree = all(ok for _, ok in seen)
-    return fails, f"real observations {seen[0][0]} (expected by the Lean witness {C10A_EXPECT}); model accepts the traces: {agree}"
+    return complete and agree, (f"real observations {seen[0][0]} (Lean regression example: {C10A_EXPECT}; before the fix: "
+                                f"{C10A_EXPECT_BEFORE_FIX}); model accepts the traces: {agree}")
